@@ -271,14 +271,38 @@ def run_to_numpy(ctx, ak, P, case, a, expected, det):
         got = _np_tolist(arr)
         exp2 = _records_as_tuples(expected)
         if isinstance(arr, np.ma.MaskedArray) and arr.ndim > 1:
-            ctx.count("to_numpy_masked_nd_not_compared")      # a missing row is represented as a row of masked items
-            return
+            exp2 = _expand_missing_rows(exp2, arr.shape[1:])     # a missing row is a row of masked items
         ctx.nontrivial(len(expected) > 0)
         if not model.same(got, exp2):
             ctx.violation("to_numpy-differs-from-value", dict(det, expected=model.brief(exp2, 300),
                                                               got=model.brief(got, 300), dtype=str(arr.dtype)))
             return
         ctx.count("to_numpy_equal_value")
+
+
+def _expand_missing_rows(v, shape):
+    if not shape:
+        return v
+    if v is None:
+        out = None
+        for n in reversed(shape):
+            out = [out] * n
+        return out
+    if isinstance(v, list):
+        return [_expand_missing_rows(x, shape[1:]) if False else _expand_missing_rows_at(x, shape) for x in v]
+    return v
+
+
+def _expand_missing_rows_at(x, shape):
+    """x is one element below the first axis; shape = the array's shape below the first axis"""
+    if x is None:
+        out = None
+        for n in reversed(shape):
+            out = [out] * n
+        return out
+    if isinstance(x, list) and len(shape) > 1:
+        return [_expand_missing_rows_at(y, shape[1:]) for y in x]
+    return x
 
 
 def _records_as_tuples(v):
